@@ -118,7 +118,7 @@ func runOverlayTest(repo string, files map[string]string, run string, env []stri
 	ovb, _ := json.Marshal(ov)
 	ovp := filepath.Join(tmp, "overlay.json")
 	os.WriteFile(ovp, ovb, 0o644)
-	cmd := exec.Command("go", "test", "-overlay", ovp, "-vet=off", "-count=1", fmt.Sprintf("-timeout=%ds", timeoutS), "-run", run, ".")
+	cmd := exec.Command("go", "test", "-overlay", ovp, "-vet=off", "-count=1", "-v", fmt.Sprintf("-timeout=%ds", timeoutS), "-run", run, ".")
 	cmd.Dir = repo
 	cmd.Env = append(goEnv(), env...)
 	out, err := cmd.CombinedOutput()
